@@ -772,6 +772,29 @@ func vfpExec(t testing.TB, r *vfpRun) {
 			break
 		}
 	}
+	// timers the code has armed are allowed to expire before the run ends (ready timer first, then the
+	// close timer, at most four expiries): a timer that layer 1 does not know about - left armed by an
+	// earlier step - shows its effect this way; the steps are ordinary inputs of the model
+	hung := len(r.Steps) > 0 && r.Steps[len(r.Steps)-1].Hang
+	for i := 0; i < 4 && !hung; i++ {
+		pa2, ok := w.quiesce()
+		if !ok || pa2 == nil {
+			break
+		}
+		fired := false
+		for _, a := range []string{"ReadyTimer", "CloseTimer"} {
+			s := w.step(vfpIn{A: a, C: "timer"})
+			if s.Fired {
+				r.Steps = append(r.Steps, s)
+				fired = true
+				hung = s.Hang
+				break
+			}
+		}
+		if !fired {
+			break
+		}
+	}
 	// requests still held are answered by the shutdown; wait for them
 	r.CloseHang = !w.close()
 	deadline := time.Now().Add(10 * time.Second)
